@@ -1,4 +1,5 @@
 import LlirProofs.TypesEqual
+import LlirProofs.TyParseMain
 /-! # C16 — Type equality is a structural equivalence matching LLVM type identity (property theorems only)
 
 Universe: type names unique, only struct types named — an identified struct is the leaf `named n`.
@@ -26,16 +27,25 @@ theorem named_ne_literal (n : Bytes) (p : Bool) (fs : TyList) :
 theorem ptr_only_equals_ptr (e : Ty) (as : Nat) (u : Ty) (h : equal (.ptr e as) u = true) : isPtr u = true :=
   (inv_ptr e as u h).2
 
-/-- Full statement, relative to injectivity of the type printer (which `PointerType.Equal` relies on):
-    equality holds exactly for structurally identical types, so any difference in kind, width, float
-    kind, length, scalability, element/field/parameter/return type, address space, packedness or
-    variadicity is distinguished. -/
-theorem equal_iff_eq_of_strInj (hinj : StrInj) (t u : Ty) : equal t u = true ↔ t = u :=
-  ⟨eq_of_equal hinj t u, fun h => h ▸ equal_refl t⟩
+/-- **The type printer is injective** (the fact `PointerType.Equal`, which compares printed strings,
+    silently relies on): two types that print the same text are the same type. Proved by exhibiting a
+    reader (`LlirModel/TyParse.lean`) and showing it inverts the printer on every type. -/
+theorem printer_injective : StrInj := TyParse.tyString_injective
 
-/-- what is proved unconditionally: everything except the pointer case, which compares strings -/
-theorem equal_iff_eq_partial (t u : Ty) (h : equal t u = true) (hinj_at_ptrs : StrInj) : t = u :=
-  eq_of_equal hinj_at_ptrs t u h
+/-- **Print → parse round trip of types**: the reader returns exactly the type that was printed — every
+    kind, width, float kind, length, scalability, address space, packedness, variadicity, name (every
+    byte) and nesting depth. -/
+theorem print_parse_roundtrip (t : Ty) : TyParse.parse (tyString t) = some t := TyParse.parse_tyString t
+
+/-- **Full statement.** `Equal` holds exactly for structurally identical types, so any difference in
+    kind, width, float kind, length, scalability, element/field/parameter/return type, address space,
+    packedness or variadicity is distinguished — pointers included. -/
+theorem equal_iff_eq (t u : Ty) : equal t u = true ↔ t = u :=
+  ⟨eq_of_equal printer_injective t u, fun h => h ▸ equal_refl t⟩
+
+/-- `Equal` agrees with equality of the printed text (LLVM's type identity on uniqued types) -/
+theorem equal_iff_same_text (t u : Ty) : equal t u = true ↔ tyString t = tyString u :=
+  ⟨fun h => by rw [(equal_iff_eq t u).mp h], fun h => (equal_iff_eq t u).mpr (printer_injective t u h)⟩
 
 /-- concrete distinctions (non-vacuity): scalability, address space, packedness, variadicity -/
 example : equal (.vec true 4 (.int 32)) (.vec false 4 (.int 32)) = false := by simp [equal]
